@@ -20,8 +20,15 @@ JOE_RULE = (
     "seeded scenarios run against the real sse.Joe built with -tags verif in child processes (a crash is an observation): 1-4 (thorough: 8) "
     "subscribers, 1-3 publisher threads, 1-3 shutdown callers; topic sets disjoint/equal/overlapping in one or many topics/DefaultTopic; "
     "writer scripts failing at the k-th Send or Flush, with and without cancelling the own context inside the failing call; cancellation "
-    "before start / after registration / after m events; replayer Put/Replay verdict scripts (ok, error, panic) and strictly sequential fault "
-    "histories (every ordered pair of Replay error / Replay panic / Put error / Put panic, then new subscribers and publishes); messages "
+    "before start / after registration / after m events; the scripted errors come in ten characters (plain, Temporary(), Timeout(), wrapping "
+    "os.ErrDeadlineExceeded / context.DeadlineExceeded / context.Canceled, *net.OpError, and the subscriber's own context cancelled inside the "
+    "call with ctx.Err() returned as it is / wrapped with %w / wrapped in a scripted value), projected by identity; a failed subscriber whose "
+    "unsubscription still reaches the loop, then further publishes to the remaining ones; one scenario in three that does not script the "
+    "replayer runs against &sse.Joe{} (Replayer nil: the noopReplayer's unobservable Put/Replay are silent ok steps of the trace check); "
+    "replayer Put/Replay verdict scripts (ok, error, panic; a Put error alone or together with the message) and strictly sequential fault "
+    "histories (every ordered pair of Replay error / Replay panic / Put error / Put panic, then new subscribers and publishes); Shutdown "
+    "closing j.done while the loop is held inside Replay / Put (any verdict); the same *sse.Message object published several times (a "
+    "message pointer stands for the Publish call the loop accepted with it); messages "
     "without data - &sse.Message{} or an ID only - in every class (recognised by pointer), also through ID-assigning real replayers; Shutdown racing pending "
     "publishes, fan-outs, subscriptions, other Shutdown calls, with and without cancelled context; schedule perturbation at the hook points "
     "(Gosched, microsecond sleeps, priorities, parked goroutines with time-outs) at GOMAXPROCS 1/2/4/16. Every trace is replayed through "
@@ -128,7 +135,10 @@ PROPS["C04"] = {
              "numeral above the newest, 2^63, 2^64-1, non-canonical) / unset; publishers parked so that publishes are accepted before, during and after "
              "the resuming Subscribe; a ValidReplayer with a scripted clock (m stored events expire, k survive, m and k up to 8: exactly len/2, len/4 "
              "and other numbers of survivors in rings of 8 and 16 slots), collected by the next Put or by the application's own GC() call, resumed from "
-             "the newest / oldest surviving / an expired ID before anything else is stored; messages without data; schedule perturbation as for C03. "
+             "the newest / oldest surviving / an expired ID before anything else is stored; messages without data; a prebuilt message object "
+             "published again through an ID-assigning replayer before somebody resumes; one Send of the replay failing (every position, errors of "
+             "all characters) while every later call would succeed: the subscription must be refused with that error and the writer not called "
+             "again; schedule perturbation as for C03. "
              "K = trace not a path of the model, S = monitor (replay part vs spec_resume of the "
              "observed Put history, live part, same ID)"),
     "assumptions": ["the presented ID identifies at most one buffered event (IDs unique)",
